@@ -3,6 +3,7 @@ package rules
 import (
 	"fmt"
 	"go/token"
+	"sort"
 	"strings"
 
 	"golang.org/x/tools/go/ssa"
@@ -273,47 +274,78 @@ func checkC08(c *Ctx) {
 
 func checkC21(c *Ctx) {
 	c.Rule("C21.walk", "parser.Parse ranges over every block of the image; inside a block the address starts at block.Begin(), advances by the parsed instruction's Len() and stops at block.End(); parsed instructions are appended in order")
-	c.Rule("C21.same", "parseIns parses p.Parse(addr, b) and builds newInstruction(ins, addr, b) from the same address and the same bytes b = block.Address(addr), after ins.Validate() succeeded")
+	c.Rule("C21.same", "wherever parser.Parse (or a helper) decodes, it decodes p.Parse(addr, b) with b = block.Address(addr) of the current block and builds newInstruction(ins, addr, b) from the decoded instruction, the same address and the same bytes, after the decode and ins.Validate() succeeded")
 	c.Rule("C21.ins", "parser.newInstruction: Bytes = bytes[:ins.ByteLen], Addr = addr, Type/Details copied, Effects = EffectsApply(ins.Effects, ConstFold) and nothing else; Len() is len(Bytes)")
 	c.Rule("C21.err", "decode and validation errors abort Parse (error propagation in package parser)")
 	n := checkErrflow(c, "C21.err", []string{pkgParser}, nil)
 	c.RequireCount("C21.err calls returning an error", n, 3)
 
 	if p := anchor(c, pkgParser+".Parse"); p != nil {
-		pi := c.Prog.Func(ModulePath + "/" + pkgParser + ".parseIns")
 		key := ShortName(p)
-		sites := CallsTo(p, pi)
-		c.RequireCount("C21.walk parseIns call", len(sites), 1)
-		for _, cs := range sites {
-			call := cs.Instr.(*ssa.Call)
-			a := call.Call.Args
-			addr, isPhi := a[2].(*ssa.Phi)
-			// block: element of m.Blocks in a full range loop
-			blockOK := false
-			for _, l := range RangeLoops(p) {
-				if LoadOfField(l.Over, "Blocks", func(v ssa.Value) bool { return v == ssa.Value(p.Params[0]) }) {
-					if idx, ok := elemLoadIndex(a[1], l.Over); ok && idx == l.Key {
-						blockOK = true
-					}
-				}
+		enter := InModulePkg(p)
+		// the loop over all blocks of the image, in Parse itself
+		var blocks *RangeLoop
+		for _, l := range RangeLoops(p) {
+			if LoadOfField(l.Over, "Blocks", func(v ssa.Value) bool { return v == ssa.Value(p.Params[0]) }) {
+				blocks = l
 			}
+		}
+		isBlock := func(v ssa.Value, chain []*ssa.Call) bool {
+			return blocks != nil && DependsOnVia(chain, v, nil, func(x ssa.Value) bool {
+				idx, ok := elemLoadIndex(x, blocks.Over)
+				return ok && idx == blocks.Key
+			}, nil)
+		}
+		// the platform parser, called on the bytes at the walk address
+		decodes := DeepInstrs(p, enter, func(in ssa.Instruction) bool {
+			call, ok := in.(*ssa.Call)
+			return ok && call.Call.IsInvoke() && call.Call.Method.Name() == "Parse"
+		})
+		builds := DeepInstrs(p, enter, func(in ssa.Instruction) bool {
+			call, ok := in.(*ssa.Call)
+			return ok && call.Call.StaticCallee() != nil && call.Call.StaticCallee().Name() == "newInstruction"
+		})
+		c.RequireCount("C21.walk platform Parse calls reached from parser.Parse", len(decodes), 1)
+		c.RequireCount("C21.same newInstruction calls reached from parser.Parse", len(builds), 1)
+		for di, s := range decodes {
+			call := s.Instr.(*ssa.Call)
+			addrArg, bytesArg := call.Call.Args[0], call.Call.Args[1]
+			// the walk variable: the address translated up to where it is a phi
+			walk, rest := Up(s.Chain, addrArg)
+			addr, isPhi := Unwrap(walk).(*ssa.Phi)
 			bad := ""
 			switch {
-			case a[0] != ssa.Value(p.Params[1]):
-				bad = "parseIns is not given Parse's own platform parser"
-			case !blockOK:
-				bad = "the parsed block is not the element of a `range m.Blocks` loop: some block of the image is skipped"
+			case Unwrap(s.UpRoot(call.Call.Value)) != ssa.Value(p.Params[1]):
+				bad = "the bytes are not decoded with Parse's own platform parser"
+			case blocks == nil:
+				bad = "Parse does not range over m.Blocks: some block of the image is skipped"
 			case !isPhi:
 				bad = "the address is not a loop variable"
 			}
 			if bad == "" {
+				// bytes = block.Address(addr) of the current block and the same address
+				okBytes := DependsOnVia(s.Chain, bytesArg, enter, func(v ssa.Value) bool {
+					ac, ok := v.(*ssa.Call)
+					return ok && ac.Call.StaticCallee() != nil && ac.Call.StaticCallee().Name() == "Address" && len(ac.Call.Args) == 2 &&
+						(SameValue(ac.Call.Args[1], addrArg) || ac.Call.Args[1] == addrArg) && isBlock(ac.Call.Args[0], s.Chain)
+				}, nil)
+				if !okBytes {
+					bad = "the bytes decoded are not block.Address(addr) of the current block at the walk address"
+				}
+			}
+			if bad == "" {
 				initOK, stepOK := false, false
 				for _, e := range addr.Edges {
-					if matches(e, Method("Begin", func(v ssa.Value, _ *Bind) bool { return Unwrap(v) == Unwrap(a[1]) })) {
+					if matches(e, Method("Begin", func(v ssa.Value, _ *Bind) bool { return isBlock(v, rest) })) {
 						initOK = true
 					}
 					if bo, ok := e.(*ssa.BinOp); ok && bo.Op == token.ADD && bo.X == ssa.Value(addr) {
-						if matches(bo.Y, Method("Len", ExtractN(0, func(v ssa.Value, _ *Bind) bool { return v == ssa.Value(call) }))) {
+						if matches(bo.Y, Method("Len", func(v ssa.Value, _ *Bind) bool {
+							return DependsOnVia(rest, v, enter, func(x ssa.Value) bool {
+								nc, ok := x.(*ssa.Call)
+								return ok && nc.Call.StaticCallee() != nil && nc.Call.StaticCallee().Name() == "newInstruction"
+							}, nil)
+						})) {
 							stepOK = true
 						}
 					}
@@ -321,7 +353,7 @@ func checkC21(c *Ctx) {
 				condOK := false
 				if iff, ok := addr.Block().Instrs[len(addr.Block().Instrs)-1].(*ssa.If); ok {
 					if bo, ok := iff.Cond.(*ssa.BinOp); ok && bo.Op == token.LSS && bo.X == ssa.Value(addr) &&
-						matches(bo.Y, Method("End", func(v ssa.Value, _ *Bind) bool { return Unwrap(v) == Unwrap(a[1]) })) {
+						matches(bo.Y, Method("End", func(v ssa.Value, _ *Bind) bool { return isBlock(v, rest) })) {
 						condOK = true
 					}
 				}
@@ -334,78 +366,70 @@ func checkC21(c *Ctx) {
 					bad = "the walk does not continue while addr < block.End()"
 				}
 			}
-			c.Oblige("C21.walk", key+"/address-walk", c.Prog.Pos(cs.Pos()), bad == "", bad)
-			// appended
-			appended := false
-			for _, cs2 := range Calls(p) {
-				if bi, ok := cs2.Common().Value.(*ssa.Builtin); ok && bi.Name() == "append" {
-					if DependsOn(cs2.Common().Args[1], func(v ssa.Value) bool {
-						e, ok := v.(*ssa.Extract)
-						return ok && e.Index == 0 && e.Tuple == ssa.Value(call)
-					}) {
+			k := key + "/address-walk"
+			if di > 0 {
+				k = fmt.Sprintf("%s#%d", k, di+1)
+			}
+			c.Oblige("C21.walk", k, c.Prog.Pos(call.Pos()), bad == "", bad)
+			// the instruction built: from what was decoded, at the same address, from the same bytes, after both checks
+			for bi, bs := range builds {
+				nb := bs.Instr.(*ssa.Call)
+				bad := ""
+				var valCall *ssa.Call
+				for _, cs := range Calls(bs.Fn) {
+					if f := Callee(cs.Common()); f != nil && f.Name() == "Validate" {
+						valCall, _ = cs.Instr.(*ssa.Call)
+					}
+				}
+				sameUp := func(x ssa.Value, xs Site, y ssa.Value, ys Site) bool {
+					a, b := Unwrap(xs.UpRoot(x)), Unwrap(ys.UpRoot(y))
+					return a == b || SameValue(a, b) || (xs.Fn == ys.Fn && (x == y || SameValue(x, y)))
+				}
+				switch {
+				case !sameUp(nb.Call.Args[1], bs, addrArg, s) || !sameUp(nb.Call.Args[2], bs, bytesArg, s):
+					bad = "newInstruction does not receive the same addr and bytes that were parsed"
+				case !DependsOnVia(bs.Chain, nb.Call.Args[0], enter, func(v ssa.Value) bool { return v == ssa.Value(call) }, nil):
+					bad = "newInstruction does not receive the parsed instruction"
+				case valCall == nil:
+					bad = "the parsed instruction model is not validated"
+				default:
+					okBoth := 0
+					for _, g := range bs.Guards() {
+						x, nn, isNil := NilCheck(g.Cond)
+						if !isNil || nn == g.Outcome {
+							continue
+						}
+						if DependsOn(x, func(v ssa.Value) bool { return v == ssa.Value(call) || v == ssa.Value(valCall) }) {
+							okBoth++
+						}
+					}
+					if okBoth < 2 {
+						bad = "the instruction is built without both the decode and the validation having succeeded"
+					}
+				}
+				k := key + "/built-from-what-was-decoded"
+				if bi > 0 || di > 0 {
+					k = fmt.Sprintf("%s#%d.%d", k, di+1, bi+1)
+				}
+				c.Oblige("C21.same", k, c.Prog.Pos(nb.Pos()), bad == "", bad)
+				// appended in order
+				appended := false
+				for _, as := range DeepInstrs(p, enter, func(in ssa.Instruction) bool {
+					ac, ok := in.(*ssa.Call)
+					if !ok {
+						return false
+					}
+					b, isBi := ac.Call.Value.(*ssa.Builtin)
+					return isBi && b.Name() == "append"
+				}) {
+					ac := as.Instr.(*ssa.Call)
+					if DependsOnVia(as.Chain, ac.Call.Args[1], enter, func(v ssa.Value) bool { return v == ssa.Value(nb) }, nil) {
 						appended = true
 					}
 				}
-			}
-			c.Oblige("C21.walk", key+"/append-in-order", c.Prog.Pos(cs.Pos()), appended, "the parsed instruction is not appended to the result")
-		}
-	}
-	if pi := anchor(c, pkgParser+".parseIns"); pi != nil {
-		key := ShortName(pi)
-		var bVal ssa.Value
-		var parseCall, newCall, valCall *ssa.Call
-		for _, cs := range Calls(pi) {
-			call, isCall := cs.Instr.(*ssa.Call)
-			if !isCall {
-				continue
-			}
-			if cs.Common().IsInvoke() && cs.Common().Method.Name() == "Parse" {
-				parseCall = call
-			}
-			if f := Callee(cs.Common()); f != nil {
-				switch f.Name() {
-				case "newInstruction":
-					newCall = call
-				case "Validate":
-					valCall = call
-				case "Address":
-					if matches(call, Method("Address", ParamN(1), ParamN(2))) {
-						bVal = call
-					}
-				}
+				c.Oblige("C21.walk", key+"/append-in-order", c.Prog.Pos(nb.Pos()), appended, "the parsed instruction is not appended to the result")
 			}
 		}
-		bad := ""
-		switch {
-		case bVal == nil:
-			bad = "the bytes are not block.Address(addr) of parseIns' own block and address"
-		case parseCall == nil || parseCall.Call.Value != ssa.Value(pi.Params[0]) || parseCall.Call.Args[0] != ssa.Value(pi.Params[2]) || parseCall.Call.Args[1] != bVal:
-			bad = "the platform parser is not called as p.Parse(addr, b)"
-		case newCall == nil || newCall.Call.Args[1] != ssa.Value(pi.Params[2]) || newCall.Call.Args[2] != bVal:
-			bad = "newInstruction does not receive the same addr and bytes that were parsed"
-		case !matches(newCall.Call.Args[0], ExtractN(0, func(v ssa.Value, _ *Bind) bool { return v == ssa.Value(parseCall) })) &&
-			!DependsOn(newCall.Call.Args[0], func(v ssa.Value) bool { return v == ssa.Value(parseCall) }):
-			bad = "newInstruction does not receive the parsed instruction"
-		case valCall == nil:
-			bad = "the parsed instruction model is not validated"
-		}
-		if bad == "" {
-			// newInstruction only after both errors were nil
-			okBoth := 0
-			for _, g := range GuardsOf(newCall.Block()) {
-				x, nn, isNil := NilCheck(g.Cond)
-				if !isNil || nn == g.Outcome {
-					continue
-				}
-				if DependsOn(x, func(v ssa.Value) bool { return v == ssa.Value(parseCall) || v == ssa.Value(valCall) }) {
-					okBoth++
-				}
-			}
-			if okBoth < 2 {
-				bad = "the instruction is built without both the decode and the validation having succeeded"
-			}
-		}
-		c.Oblige("C21.same", key, c.Prog.FuncPos(pi), bad == "", bad)
 	}
 	if ni := anchor(c, pkgParser+".newInstruction"); ni != nil {
 		key := ShortName(ni)
@@ -612,54 +636,58 @@ func checkC26(c *Ctx) {
 
 	// --- C26.alloc
 	nAlloc := 0
+	// keyed by the exported entry point from which the allocation is reached,
+	// so that the same allocation keeps its identity when the code around it is
+	// moved into or out of helpers
+	var entries []*ssa.Function
 	for _, fn := range c.Prog.FuncsIn(ModulePath + "/" + pkgElf) {
-		if fn.Origin() != nil || fn.Blocks == nil {
-			continue
+		if fn.Origin() == nil && fn.Blocks != nil && fn.Parent() == nil && token.IsExported(fn.Name()) {
+			entries = append(entries, fn)
 		}
-		for _, b := range fn.Blocks {
-			for _, in := range b.Instrs {
-				ms, ok := in.(*ssa.MakeSlice)
+	}
+	sort.Slice(entries, func(i, j int) bool { return entries[i].String() < entries[j].String() })
+	seenAlloc := map[ssa.Instruction]bool{}
+	for _, entry := range entries {
+		for _, st := range DeepInstrs(entry, InModulePkg(entry), func(in ssa.Instruction) bool { _, ok := in.(*ssa.MakeSlice); return ok }) {
+			ms := st.Instr.(*ssa.MakeSlice)
+			if seenAlloc[ms] {
+				continue
+			}
+			var field string
+			if !DependsOnVia(st.Chain, ms.Len, nil, func(v ssa.Value) bool {
+				n, _, ok := FieldNameOfLoad(v)
+				if ok && (n == "Memsz" || n == "Filesz" || n == "Size") {
+					field = n
+					return true
+				}
+				return false
+			}, nil) {
+				continue
+			}
+			seenAlloc[ms] = true
+			nAlloc++
+			key := fmt.Sprintf("%s/make(%s)", ShortName(entry), field)
+			bounded := false
+			for _, gd := range st.Guards() {
+				bo, ok := gd.Cond.(*ssa.BinOp)
 				if !ok {
 					continue
 				}
-				var field string
-				if !DependsOn(ms.Len, func(v ssa.Value) bool {
-					n, _, ok := FieldNameOfLoad(v)
-					if ok && (n == "Memsz" || n == "Filesz" || n == "Size") {
-						field = n
-						return true
-					}
-					return false
-				}) {
-					continue
+				// an upper bound: size <= K / size < K true, size > K false ...
+				dep := func(v ssa.Value) bool {
+					return DependsOn(v, func(x ssa.Value) bool { n, _, ok := FieldNameOfLoad(x); return ok && n == field })
 				}
-				nAlloc++
-				key := fmt.Sprintf("%s/make(%s)", ShortName(fn), field)
-				bounded := false
-				for _, gd := range GuardsOf(b) {
-					bo, ok := gd.Cond.(*ssa.BinOp)
-					if !ok {
-						continue
-					}
-					// an upper bound: size <= K / size < K true, size > K false ...
-					dep := func(v ssa.Value) bool {
-						return DependsOn(v, func(x ssa.Value) bool { n, _, ok := FieldNameOfLoad(x); return ok && n == field })
-					}
-					switch {
-					case dep(bo.X) && !dep(bo.Y) && ((bo.Op == token.LEQ || bo.Op == token.LSS) == gd.Outcome) && (bo.Op == token.LEQ || bo.Op == token.LSS || bo.Op == token.GTR || bo.Op == token.GEQ):
-						if _, isConst := bo.Y.(*ssa.Const); !isConst || true {
-							// `missing > 0` is a lower bound only: require the non-dependent side to be non-constant-zero
-							if k, isK := ConstInt(bo.Y); !(isK && k == 0) {
-								bounded = true
-							}
-						}
+				if dep(bo.X) && !dep(bo.Y) && ((bo.Op == token.LEQ || bo.Op == token.LSS) == gd.Outcome) && (bo.Op == token.LEQ || bo.Op == token.LSS || bo.Op == token.GTR || bo.Op == token.GEQ) {
+					// `missing > 0` is a lower bound only: require the non-dependent side to be non-constant-zero
+					if k, isK := ConstInt(bo.Y); !(isK && k == 0) {
+						bounded = true
 					}
 				}
-				if bounded {
-					c.Pass("C26.alloc", key, c.Prog.Pos(ms.Pos()), "")
-				} else {
-					c.Fail("C26.alloc", key, c.Prog.Pos(ms.Pos()), "allocation of a size taken from the ELF header field "+field+" without an upper bound: a corrupt header crashes the program with an out-of-memory/len-out-of-range panic instead of an error message")
-				}
+			}
+			if bounded {
+				c.Pass("C26.alloc", key, c.Prog.Pos(ms.Pos()), "")
+			} else {
+				c.Fail("C26.alloc", key, c.Prog.Pos(ms.Pos()), "allocation of a size taken from the ELF header field "+field+" without an upper bound: a corrupt header crashes the program with an out-of-memory/len-out-of-range panic instead of an error message")
 			}
 		}
 	}
